@@ -47,6 +47,10 @@ type SimFS struct {
 	edits  []EditEvent    // sorted by step; read-only
 	faults map[[2]int]FaultSpec
 	sh     *fsShared
+	// edit events count kernel steps from the moment the harness arms them (after the engine is constructed and
+	// warmed): construction-time reads are never subject to edits
+	armed    bool
+	editBase int64
 }
 
 var faultKinds = []string{"eio", "enoent", "perm", "short", "readerr"}
@@ -109,8 +113,8 @@ func (s *SimFS) SetVersion(name string, v int) {
 //go:norace
 func (s *SimFS) version(i int) int {
 	v := int(s.sh.cur[i])
-	if len(s.edits) > 0 {
-		now := simrt.Step()
+	if s.armed && len(s.edits) > 0 {
+		now := simrt.Step() - s.editBase
 		name := s.files[i].name
 		for k := range s.edits {
 			if s.edits[k].Step > now {
@@ -126,6 +130,9 @@ func (s *SimFS) version(i int) int {
 	}
 	return v
 }
+
+// ArmEdits makes the scheduled edit events take effect, counting kernel steps from now.
+func (s *SimFS) ArmEdits() { s.armed = true; s.editBase = simrt.Step() }
 
 // DropEdits forgets the scheduled edit events (harness use, after the tasks ended: versions are then set explicitly).
 func (s *SimFS) DropEdits() { s.edits = nil }
